@@ -2,6 +2,7 @@ package driver
 
 import (
 	sqldriver "database/sql/driver"
+	"strings"
 )
 
 // C11 — placeholder binding is exact and prepared statements are reusable.
@@ -27,6 +28,10 @@ var c11Templates = []c11Template{
 	{`a = "y"`, 0, func(r drvRow, a []string) bool { return r["a"] == "y" }},
 	{`a = $1 | b = $1`, 1, func(r drvRow, a []string) bool { return has(r, "a", a[0]) || has(r, "b", a[0]) }},
 	{`^ a = $2 & b = $2 & a = $1`, 2, func(r drvRow, a []string) bool { return !has(r, "a", a[1]) && has(r, "b", a[1]) && has(r, "a", a[0]) }},
+	// placeholders far down: under 70 negations, and under 70 alternating levels of | and &
+	// (every occurrence is counted and bound, however deep it sits)
+	{strings.Repeat("^ ", 70) + `a = $1`, 1, func(r drvRow, a []string) bool { return r["a"] == a[0] }},
+	{strings.Repeat(`a = "zz" | ( a = "x" & ( `, 35) + `b = $2` + strings.Repeat(` ) )`, 35), 2, func(r drvRow, a []string) bool { return r["a"] == "x" && has(r, "b", a[1]) }},
 }
 
 func has(r drvRow, c, v string) bool {
